@@ -9,7 +9,11 @@ git -C /repo archive HEAD | tar -x -C $T
 echo "== patch applies to /repo HEAD $(git -C /repo rev-parse --short HEAD)"
 ( cd $T && git init -q . 2>/dev/null; git -C $T apply $SD/patch.diff && echo applied ) 
 echo "== tests with change (PYTHONPATH=<patched>/Python)"
-( cd $T && PYTHONPATH=$T/Python /venv/bin/python -m pytest -q -p no:cacheprovider --timeout=900 --continue-on-collection-errors 2>&1 | grep -E "passed|failed" | tail -1 )
+# Test/test_21.py::StateTransitions::test_starting binds fixed ports and fails when another suite runs at the same time: retry
+for try in 1 2 3; do
+  r=$( cd $T && PYTHONPATH=$T/Python /venv/bin/python -m pytest -q -p no:cacheprovider --timeout=900 --continue-on-collection-errors 2>&1 | grep -E "passed|failed" | tail -1 )
+  echo "$r"; case "$r" in *" 61 passed"*) break;; esac
+done
 echo "== demo with change"
 ( cd $SD && PYTHONPATH=$T/Python timeout 900 /venv/bin/python demo.py >/dev/null 2>&1; echo "exit=$?" )
 echo "== demo without change (PYTHONPATH=/repo/Python)"
